@@ -200,3 +200,16 @@ Theorem convert_input_clobber_refuted :
   /\ fget (in_path clobber_cfg) (files (apply_ops (mkenv None) clobber_fs (convert_ops clobber_cfg)))
      <> fget (in_path clobber_cfg) (files clobber_fs).
 Proof. vm_compute. repeat split; try reflexivity. discriminate. Qed.
+
+(* the hypotheses of the theorems above are satisfiable: explicit output, default
+   output, an object that cannot be persisted *)
+Definition ex_cfs : fs :=
+  mkfs [([s "S"; s "cwd"; s "model.pkl"], [1]); ([s "S"; s "cwd"; s "out.skops"], [2])]
+       [[]; [s "S"]; [s "S"; s "cwd"]; [s "S"; s "cwd"; s "sub"]].
+Definition ex_ccfg (out : option pstr) (saved : res bytes) : ccfg :=
+  mkccfg [s "S"; s "cwd"] (s "model.pkl") out 1 saved [s "m.A"; s "m.B"] true.
+Example cfits_examples :
+  forallb (fun c => cfits c ex_cfs && negb (path_eqb (out_path c) (in_path c)))
+    [ex_ccfg (Some (s "out.skops")) (Ok [9]); ex_ccfg None (Ok [9]); ex_ccfg (Some (s "sub/o.skops")) (Raise EUnsupported)] = true
+  /\ warnings (fst (convert_run (ex_ccfg None (Ok [9])))) <> [].
+Proof. split; [vm_compute; reflexivity | vm_compute; discriminate]. Qed.
